@@ -168,8 +168,8 @@ class ShimConnection:
             had = self.raw.in_transaction
             if w.record:
                 w.log.append((self.n, kind, None, None))
-            if had or kind == "commit":
-                w._tick(kind, None)
+            if kind == "commit":
+                w._tick(kind, None)  # a fault at ROLLBACK is not modelled (the connection would be unusable either way)
             getattr(self.raw, kind)()
 
         await loop.hop("sql", run, label=kind, conn=self.n)
